@@ -158,7 +158,7 @@ def validate(name, trace_path, nproc=8):
     return list(agg.values()), dict(events=events, skipped=skipped, outofdomain=outofdomain)
 
 
-MUTATING = {'AnnotateBatch', 'QueryAdd', 'Reindex', 'AddResource', 'AddDataset', 'AddKey', 'InsertData', 'Annotate', 'RemoveAnnotation', 'RemoveResource',
+MUTATING = {'AnnotateBatch', 'QueryAdd', 'QueryDelete', 'Reindex', 'AddResource', 'AddDataset', 'AddKey', 'InsertData', 'Annotate', 'RemoveAnnotation', 'RemoveResource',
             'RemoveDataset', 'RemoveData', 'RemoveKey', 'StripAnnotationIds', 'StripDataIds', 'ShrinkToFit', 'RoundTrip', 'ProtectText', 'Transpose'}
 
 
@@ -317,7 +317,7 @@ def mismatch_diffs(m):
     return d
 
 
-REMOVALS = ('RemoveAnnotation', 'RemoveResource', 'RemoveDataset', 'RemoveData', 'RemoveKey')
+REMOVALS = ('RemoveAnnotation', 'RemoveResource', 'RemoveDataset', 'RemoveData', 'RemoveKey', 'QueryDelete')
 
 
 def attribute(m, diffs):
@@ -412,6 +412,8 @@ def arg_features(rec):
             f.append('off=' + a['off']['bk'] + a['off']['ek'])
     elif ev == 'OffsetReport':
         f.append('m=%d' % a['m'])
+    elif ev == 'QueryDelete':
+        f.append('sub=%s[%s]' % (a['sub']['rt'], '+'.join(c['k'] + ('@m' if c['q'] else '') for c in a['sub']['cs'])))
     elif ev == 'QueryAdd':
         f.append('sub=%s[%s],id=%s,data=%d' % (a['sub']['rt'], '+'.join(c['k'] for c in a['sub']['cs']), 'y' if a['id'] else 'n', len(a['data'])))
     elif ev == 'AnnotateBatch':
